@@ -46,6 +46,17 @@ theorem readExpr_spec (r : Rd) (e rest : Bytes) (hw : ExprWF e)
   rw [hok]; simp only
   rw [if_neg hw.2]
 
+/-- the per-round `ensureData(1)` passes, and changes nothing, while bytes of the message are pending -/
+theorem guard_spec (r : Rd) (B : Bytes) (hB : 1 ≤ B.length) (hp : r.d.pending = some B) :
+    ∃ rg, r.guard = .ok rg ∧ rg.d.pending = some B ∧ r.Same rg := by
+  rcases ensure_spec r.d 1 B hp with ⟨_, d', hok, hp', _, _⟩ | ⟨hl, _⟩
+  · refine ⟨{ r with d := d' }, ?_, hp', rfl, rfl⟩
+    unfold Rd.guard; rw [hok]
+  · omega
+
+theorem enc_str_length (enc : Bool) (s rest : Bytes) : 1 ≤ (Spec.enc enc (.str s) ++ rest).length := by
+  simp [Spec.enc]; omega
+
 theorem encAll_cons (enc : Bool) (v : Val) (vs : List Val) :
     Spec.encAll enc (v :: vs) = Spec.enc enc v ++ Spec.encAll enc vs := by
   simp [Spec.encAll]
@@ -66,11 +77,13 @@ theorem rawLoop_spec : ∀ (exprs : List Bytes) (r : Rd) (acc : List Bytes) (res
   | cons e es ih =>
     intro r acc rest hw hp
     rw [List.map_cons, encAll_cons, List.append_assoc] at hp
-    obtain ⟨r1, hok, hp1, hs1⟩ := readExpr_spec r e _ (hw e (List.mem_cons_self ..)) hp
-    rw [← hs1.1] at hp1
+    obtain ⟨rg, hgd, hpg, hsg⟩ := guard_spec r _ (enc_str_length _ _ _) hp
+    rw [← hsg.1] at hpg
+    obtain ⟨r1, hok, hp1, hs1⟩ := readExpr_spec rg e _ (hw e (List.mem_cons_self ..)) hpg
+    rw [hsg.1, ← hsg.1, ← hs1.1] at hp1
     obtain ⟨r2, hok2, hp2, hs2⟩ := ih r1 (e :: acc) rest (fun x hx => hw x (List.mem_cons_of_mem _ hx)) hp1
-    refine ⟨r2, ?_, hp2, ⟨hs2.1.trans hs1.1, hs2.2.trans hs1.2⟩⟩
-    simp only [List.length_cons, rawLoop, hok, hok2]
+    refine ⟨r2, ?_, hp2, ⟨(hs2.1.trans hs1.1).trans hsg.1, (hs2.2.trans hs1.2).trans hsg.2⟩⟩
+    simp only [List.length_cons, rawLoop, hgd, hok, hok2]
     simp
 
 /-- every expression string of an ad, read back by the parsing receiver -/
